@@ -107,6 +107,7 @@ pub(crate) fn run(seed: u64, n: u64, out: &mut Out) {
     let reader = GCSFilterReader::new(SipHasher24Builder::new(0, 0), M, P);
     let mut case_no = 0u64;
     run_download_order(&mut rng, out, &consensus);
+    run_pending_in_store_only(&mut rng, out, &consensus);
     for world in 0..n {
         let pool: Vec<packed::Script> = (1..=4u8).map(|i| pool_script(7, &[i])).collect();
         let mut gen = TxGen::new(pool.clone(), world * 100_000, 3);
@@ -212,7 +213,7 @@ pub(crate) fn run(seed: u64, n: u64, out: &mut Out) {
                 1 if !filters.is_empty() => { what = "foreign-filter"; let j = rng.below(filters.len() as u64) as usize; filters[j] = bc.filters[rng.range(1, tip) as usize].clone(); }
                 2 => { what = "shifted-start"; start = match rng.below(3) { 0 => start + 1, 1 => start.saturating_sub(1), _ => rng.range(0, tip + 3) }; }
                 3 if !hashes.is_empty() => { what = "count-mismatch"; if rng.chance(1, 2) { hashes.pop(); } else { hashes.push(bc.chain.headers[1].hash()); } }
-                4 | 12 if !hashes.is_empty() => { what = "substituted-block-hash";
+                4 | 12 | 16 | 17 if !hashes.is_empty() => { what = "substituted-block-hash";
                     // mostly at a position whose block touches a registered script (only those end up in a record)
                     let touching: Vec<usize> = (0..hashes.len()).filter(|j| reg.iter().any(|r| bc.touches(start + *j as u64, &pool[r.0]))).collect();
                     let j = if !touching.is_empty() && rng.chance(3, 4) { *rng.pick(&touching) } else { rng.below(hashes.len() as u64) as usize }; hashes[j] = if rng.chance(1, 2) { bc.chain.headers[rng.range(1, tip) as usize].hash() } else { other.chain.headers[other.tip() as usize].hash() }; }
@@ -511,5 +512,53 @@ fn run_download_order(rng: &mut Rng, out: &mut Out, consensus: &ckb_chain_spec::
         let oracle = if problems.is_empty() { Ok(()) } else { Err(problems.join(" || ")) };
         out.case(&format!("order-{}", w), &["download-order", if first < 256 && first + count >= 256 { "straddles-256" } else if first < 512 && first + count >= 512 { "straddles-512" } else { "plain" }], "(VN 1)", &Val::n(1), oracle,
             &format!("record {}..={} of a spend chain, bodies delivered in the order {:?}", first + 1, first + count, order));
+    }
+}
+
+
+/// A record pending in the store only (restart / rollback window: the download table is empty), then another batch with matches,
+/// then the body of one of ITS blocks: the table has to be loaded from the EARLIEST record (Model/MatchedBlocks.v, table_inv), and
+/// the body of a block the table does not hold is ignored - not asserted on.
+fn run_pending_in_store_only(rng: &mut Rng, out: &mut Out, consensus: &ckb_chain_spec::consensus::Consensus) {
+    use ckb_types::bytes::Bytes;
+    for w in 0..2u64 {
+        let first = rng.range(12, 30);
+        let len = first + 12;
+        let script = pool_script(7, &[1]);
+        let outside = pool_script(9, &[9]);
+        let mut all: HashMap<packed::Byte32, packed::Transaction> = HashMap::new();
+        let mut salt = 0u32;
+        let chain = super::chain::SynChain::new_with_bodies(flat_plan(((len / 8) + 2) as usize, 8, 5), len, 41_000 + w, 0, &mut |n| {
+            salt += 1;
+            let output = packed::CellOutput::new_builder().capacity(100u64.pack()).lock(if n > first { script.clone() } else { outside.clone() }).build();
+            let raw = packed::RawTransaction::new_builder().version(salt.pack()).outputs(vec![output].pack()).outputs_data(vec![Bytes::new().pack()].pack()).build();
+            let tx = packed::Transaction::new_builder().raw(raw).build();
+            all.insert(tx.calc_tx_hash(), tx.clone());
+            vec![tx]
+        });
+        let mut bc = BodyChain { chain, all, filters: Vec::new(), fhashes: Vec::new() };
+        bc.derive_pub();
+        let mut net = Net::new(&bc.chain, consensus, 5, 1, 10);
+        let peer = PeerIndex::new(1);
+        if !net.prove_peer(peer, &bc.chain, bc.tip()) { out.stat("c06-pending-unproven", &format!("{}", w)); continue; }
+        net.storage.update_filter_scripts(vec![ScriptStatus { script: script.clone(), script_type: ScriptType::Lock, block_number: first }], SetScriptsCommand::All);
+        net.peers.update_min_filtered_block_number(first);
+        let hs: Vec<packed::Byte32> = (1..=bc.tip()).map(|j| bc.fhashes[j as usize].clone()).collect();
+        net.peers.mock_latest_block_filter_hashes(peer, 0, hs);
+        let mut problems: Vec<String> = Vec::new();
+        let batch = |net: &mut Net, start: u64, n: u64| { let m = serve_block_filters(&bc, start, n); net.fp_recv(peer, filters_message(m)) };
+        let r1 = batch(&mut net, first + 1, 3);
+        if r1.panicked || matched_records(&net).len() != 1 { out.stat("c06-pending-no-first-record", &format!("{}", w)); continue; }
+        // the window: the table is gone, the record is not
+        if let Ok(mut g) = net.peers.matched_blocks().write() { g.clear(); }
+        let r2 = batch(&mut net, first + 4, 3);
+        if r2.panicked { problems.push(format!("[C10-filter-panic] BlockFilters made the handler panic: {}", super::last_panic())); }
+        if let Some(p) = table_problem(&net) { problems.push(p); }
+        // the body of a block of the SECOND record
+        let r3 = net.sp_recv(peer, send_block_message(bc.chain.block(first + 5)));
+        if r3.panicked { problems.push(format!("[C10-handler-panic] SendBlock for a block of a later pending record, while an earlier record is pending in the store only, made the handler panic: {}", super::last_panic())); }
+        let oracle = if problems.is_empty() { Ok(()) } else { Err(problems.join(" || ")) };
+        out.case(&format!("pending-only-{}", w), &["pending-in-store-only"], "(VN 1)", &Val::n(1), oracle,
+            &format!("record {}..{} pending in the store only, then a batch {}..{} with matches, then the body of block {}", first + 1, first + 3, first + 4, first + 6, first + 5));
     }
 }
